@@ -34,7 +34,7 @@ ASSUMPTIONS = [
     "the multiprocessing Manager server and pickling are part of the trusted base; payloads are picklable",
     "concurrent oracle: a load is illegitimate only if a completed earlier access to the same index certainly populated the cache and no clear overlaps the interval in between",
     "readers are multiprocessing (fork) processes, as DataLoader workers are",
-    "indices are non-negative ints (what samplers produce); an index beyond the last sample must raise IndexError like the wrapped dataset "
+    "indices are non-negative python ints or numpy integers (what samplers / permutations produce); an index beyond the last sample must raise IndexError like the wrapped dataset "
     "(the legacy iteration protocol `list(ds)` relies on it); negative indices are not driven",
 ]
 MONITORS = ["sequential_reads_checked", "concurrent_reads_checked", "loads_observed", "transform_applications_observed", "clears_observed", "concurrent_histories"]
@@ -90,6 +90,13 @@ class Base(torch.utils.data.Dataset):
 
     def __len__(self):
         return self.n
+
+
+class BaseWithGetitems(Base):
+    """like torch.utils.data.Subset: also implements the batched fetch protocol __getitems__"""
+
+    def __getitems__(self, indices):
+        return [self[i] for i in indices]
 
 
 class Marker:
@@ -188,6 +195,10 @@ def gen_cases(run):
                 ops.append(["oob", rng.choice([0, 1, 5])])   # access `offset` beyond the last sample: the wrapped dataset raises IndexError
             elif r < 0.13:
                 ops.append(["iter"])                          # list(cached): legacy __getitem__ iteration protocol, ends with IndexError
+            elif r < 0.17:
+                ops.append(["loader", rng.choice([1, 2, 3])])  # one pass of torch DataLoader(cached, batch_size=k) in this process (batched fetch path)
+            elif r < 0.27:
+                ops.append(["get_np", rng.randrange(nkeys)])  # the same access with a numpy integer index (np.random.permutation, index tables)
             else:
                 ops.append(["get", rng.randrange(nkeys)])
         payload = PAYLOADS[i % len(PAYLOADS)]
@@ -201,9 +212,9 @@ def gen_cases(run):
 
 
 # ------------------------------------------------------------------------------------------------ sequential histories
-def _new_cache(tmp, kind, nkeys, transform=True, sleep_us=0):
+def _new_cache(tmp, kind, nkeys, transform=True, sleep_us=0, getitems=False):
     from kappadata.caching import SharedDictDataset
-    base = Base(nkeys, kind, str(tmp / "loads.log"), sleep_us=sleep_us)
+    base = (BaseWithGetitems if getitems else Base)(nkeys, kind, str(tmp / "loads.log"), sleep_us=sleep_us)
     tr = None
     if transform == "kd":
         tr = _kd_marker(str(tmp / "transform.log"))
@@ -221,7 +232,7 @@ def _pooled(payload, transform):
     key = (payload, transform)
     if key not in _POOL:
         tmp = Path(tempfile.mkdtemp(prefix="kdv_c19_"))
-        cached, base = _new_cache(tmp, payload, 8, transform=transform)
+        cached, base = _new_cache(tmp, payload, 8, transform=transform, getitems=(len(_POOL) % 2 == 0))
         _POOL[key] = (cached, tmp, _Tail(tmp / "loads.log"), _Tail(tmp / "transform.log"))
     return _POOL[key]
 
@@ -294,7 +305,30 @@ def run_case(run, spec):
             loaded_since_clear |= set(range(8))
             run.count("loads_observed", len(new_loads))
             continue
-        i = op[1]
+        if op[0] == "loader":
+            run.count("loader_passes_checked")
+            from torch.utils.data import DataLoader
+            try:
+                got_all = [b for b in DataLoader(cached, batch_size=op[1], collate_fn=list)]
+            except Exception as e:
+                run.violation(f"seq:loader-raises:{type(e).__name__}", f"step {step}: DataLoader(cached, batch_size={op[1]}) raised {type(e).__name__}: {e}")
+                return
+            flat = [v for b in got_all for v in b]
+            if [_digest(v) for v in flat] != [_digest(_expected(q)) for q in range(8)]:
+                run.violation("seq:loader-bypasses-cache-or-transform", f"step {step}: DataLoader(cached, batch_size={op[1]}) over a base {'with' if hasattr(cached.dataset, '__getitems__') else 'without'} "
+                                                                        f"__getitems__ delivers {repr(flat[0])[:100]}…, expected transform(base[i]) for i in 0..7")
+                return
+            new_loads, new_tr = tail_loads.new(), tail_tr.new()
+            bad = [l["i"] for l in new_loads if l["i"] in loaded_since_clear]
+            if bad:
+                run.violation("seq:redundant-load", f"step {step}: DataLoader pass re-loaded indices {bad} that were loaded since the last clear (base {'with' if hasattr(cached.dataset, '__getitems__') else 'without'} __getitems__)")
+                return
+            if spec["transform"] and len(new_tr) != 8:
+                run.violation("seq:transform-count", f"step {step}: DataLoader pass applied the post-cache transform {len(new_tr)} times for 8 samples")
+                return
+            loaded_since_clear |= set(range(8))
+            continue
+        i = op[1] if op[0] == "get" else np.int64(op[1])
         try:
             got = cached[i]
         except Exception as e:
